@@ -18,7 +18,7 @@ use crate::props::gcase::{gcase, GCase};
 use crate::runner::{guarded, CheckResult, EnumJob, Env, Job, JobReport, Outcome, PropJob};
 use crate::util::{canon, is_pal, rc, splitmix, to_ascii, Seq};
 
-pub const RULE: &str = "case = finished graph built from a generated read set (all K types, stranded/unstranded, thresholds, three entry points) plus a 64-bit value that drives probes; checks: every node x side x base through find_link/edges against the string-level acceptable-answer set (landing node, arrival side, flip), edge lists = resolved extension bits in base order, symmetry (palindromic single-k-mer nodes: either side), W_total(graph) = (K+1)-mers between retained k-mers of the reads/table, node extension bytes = table extensions of the terminal k-mers, find_link for terminal k-mers, their reverse complements, 1-mismatch neighbours and random k-mers, random walks + max_path + max_path_beam spelled by sequence_of_path against model spelling with K-1 overlaps and no repeated node in max_path, get_valid_exts/fix_exts under random node bitsets. Fixed extra jobs: a k-mer observed more than 65 535 times whose last observations bring a new adjacency (both shipped summarizers are run and must agree on keys and extensions in every graph pipeline). Separate jobs: remove_censored_exts and remove_censored_exts_sharded under random censor subsets against the model filter, bit for bit. Non-trivial = graph has >= 1 resolvable edge (pruning: >= 1 extension removed and >= 1 kept).";
+pub const RULE: &str = "case = finished graph built from a generated read set (all K types, stranded/unstranded, thresholds, three entry points) plus a 64-bit value that drives probes; checks: every node x side x base through find_link/edges against the string-level acceptable-answer set (landing node, arrival side, flip), edge lists = resolved extension bits in base order, symmetry (palindromic single-k-mer nodes: either side), W_total(graph) = (K+1)-mers between retained k-mers of the reads/table, node extension bytes = table extensions of the terminal k-mers, find_link for terminal k-mers, their reverse complements, 1-mismatch neighbours and random k-mers, random walks + max_path + max_path_beam spelled by sequence_of_path against model spelling with K-1 overlaps and no repeated node in max_path, get_valid_exts/fix_exts under random node bitsets. Fixed extra jobs: a k-mer observed more than 65 535 times whose last observations bring a new adjacency (both shipped summarizers are run and must agree on keys and extensions in every graph pipeline). Separate jobs: remove_censored_exts and remove_censored_exts_sharded under random censor subsets against the model filter, bit for bit, plus the shipped two-call flow filter_kmers(report_all_kmers = true) -> remove_censored_exts_sharded with the returned k-mer list passed on unchanged. Non-trivial = graph has >= 1 resolvable edge (pruning: >= 1 extension removed and >= 1 kept).";
 pub const TECHNIQUE: &str = "seeded proptest over graphs x probes against a string-level adjacency model (acceptable-answer sets, (K+1)-mer set equality, walk spelling)";
 
 fn link_of(l: (usize, Dir, bool)) -> Link {
@@ -613,11 +613,60 @@ fn check_prune<K: Kmer>(c: &PruneCase) -> CheckResult {
         })
         .collect();
     let (r2, k2) = cmp("remove_censored_exts_sharded", &v2, &before, &want2)?;
+
+    // the shipped two-call flow: filter_kmers(.., report_all_kmers = true, ..) hands back the table AND the list of
+    // every observed k-mer; the list goes to remove_censored_exts_sharded exactly as returned
+    let mut flow_removed = 0;
+    if k >= 4 {
+        let mc = c.g.min_count();
+        let seqs = crate::pipeline::to_seqs(&reads);
+        let (bm, all) = debruijn::filter::filter_kmers::<K, debruijn::DnaBytes, u8, u16, debruijn::filter::CountFilter>(
+            &seqs,
+            &Box::new(debruijn::filter::CountFilter::new(mc)),
+            stranded,
+            true,
+            1,
+        );
+        let kept: BTreeSet<Seq> = ptable::<SumPay>(&mt, mc).keys().cloned().collect();
+        let mut v3: Vec<(K, (Exts, SumPay))> = Vec::new();
+        for (km, e, _) in bm.iter() {
+            let sq = kseq(km);
+            match global.get(&sq) {
+                Some(g) if kept.contains(&sq) => v3.push((*km, (*e, g.1.clone()))),
+                _ => return Err(format!("filter_kmers retains {} which the reference grouping does not (threshold {})", to_ascii(&sq), mc)),
+            }
+        }
+        if v3.len() != kept.len() {
+            return Err(format!("filter_kmers retains {} k-mers, the reference grouping {}", v3.len(), kept.len()));
+        }
+        v3.sort_by(|a, b| a.0.cmp(&b.0));
+        let before3 = v3.clone();
+        remove_censored_exts_sharded(stranded, &mut v3, &all);
+        // every k-mer of these whole reads is in the list, so an extension survives iff its target was retained
+        let want3: BTreeMap<Seq, u8> = kept
+            .iter()
+            .map(|s| {
+                let mut e = 0u8;
+                for side in [LEFT, RIGHT] {
+                    for b in model::ext_bases(global[s].0, side) {
+                        let (nb, _, _) = model::neighbour(s, side, b, stranded);
+                        if kept.contains(&nb) || !global.contains_key(&nb) {
+                            e |= model::ext_with(side, b);
+                        }
+                    }
+                }
+                (s.clone(), e)
+            })
+            .collect();
+        let (r3, _) = cmp("filter_kmers(report_all_kmers) -> remove_censored_exts_sharded", &v3, &before3, &want3)?;
+        flow_removed = r3;
+    }
     let outside = global.len() > shard_all.len();
     Ok(Outcome::new(r1 >= 1 && k1 >= 1)
         .label(r1 >= 1 && k1 >= 1, "unsharded_removes_some_keeps_some")
         .label(r2 >= 1 && k2 >= 1, "sharded_removes_some_keeps_some")
         .label(outside && r2 < r1, "sharded_keeps_ext_leaving_shard")
+        .label(flow_removed >= 1, "filter_then_sharded_prune_removes_some")
         .label(stranded, "stranded"))
 }
 
